@@ -244,6 +244,9 @@ def binop(ip, op, a, b):
         known = ('timedelta',)
         if not ((isinstance(a, Obj) and a.kind in known) or (isinstance(b, Obj) and b.kind in known)):
             raise OutOfReach(f'operator {op} on {a!r}, {b!r}')
+    merged = merged_num_binop(ip, op, a, b)
+    if merged is not None:
+        return merged
     ka, kb = numkind(ip, a), numkind(ip, b)
     if ka and kb:
         return num_binop(ip, op, a, b, ka, kb)
@@ -272,6 +275,53 @@ def binop(ip, op, a, b):
         from .models_calls import list_concat
         return list_concat(ip, a, b)
     raise_('TypeError', f'unsupported operand type(s) for {op}')
+
+
+def _known_number(ip, v):
+    """v is a number (bool/int/float) without its kind being syntactically known"""
+    if isinstance(v, S) and kind_of(ip, v) is None:
+        return ip.ctx.must(p_isinstance_number(v.t))
+    return False
+
+
+def merged_num_binop(ip, op, a, b):
+    """arithmetic on numbers whose int/float kind is not known on this path, without forking on the kind: the result
+    is a conditional value (int when both operands are ints, else float), with CPython's exceptions"""
+    if op not in ('Add', 'Sub', 'Mult', 'FloorDiv', 'Mod', 'Div'):
+        return None
+    ua, ub = _known_number(ip, a), _known_number(ip, b)
+    if not (ua or ub):
+        return None
+    for v, u in ((a, ua), (b, ub)):
+        if not u and kind_of(ip, v) not in ('int', 'float', 'bool'):
+            return None
+    ctx = ip.ctx
+    ta, tb = ctx.to_term(a), ctx.to_term(b)
+    inta, intb = p_isinstance_int(ta), p_isinstance_int(tb)
+    bothint = z3.simplify(z3.And(inta, intb))
+    x, y = numval(ta), numval(tb)
+    ia, ib = intval(ta), intval(tb)
+    # int -> float coercion of an int operand next to a float one
+    over = z3.Or(z3.And(inta, z3.Not(intb), z3.Or(ia >= FLOAT_MAX_INT, ia <= -FLOAT_MAX_INT)),
+                 z3.And(intb, z3.Not(inta), z3.Or(ib >= FLOAT_MAX_INT, ib <= -FLOAT_MAX_INT)))
+    if ctx.branch(over):
+        raise_('OverflowError', 'int too large to convert to float')
+    if op == 'Add':
+        return S(z3.If(bothint, VInt(ia + ib), VFloat(x + y)))
+    if op == 'Sub':
+        return S(z3.If(bothint, VInt(ia - ib), VFloat(x - y)))
+    if op == 'Mult':
+        return S(z3.If(bothint, VInt(ia * ib), VFloat(x * y)))
+    if ctx.branch(y == 0):
+        raise_('ZeroDivisionError', 'division by zero')
+    if op == 'Div':
+        if ctx.branch(z3.And(bothint, z3.Or(ia >= FLOAT_MAX_INT, ia <= -FLOAT_MAX_INT))) and ctx.choice('div_overflow'):
+            raise_('OverflowError', 'integer division result too large for a float')
+        return R(x / y)
+    fl = z3.ToInt(x / y)
+    if op == 'FloorDiv':
+        return S(z3.If(bothint, VInt(fl), VFloat(z3.ToReal(fl))))
+    return S(z3.If(bothint, VInt(ia - fl * ib), VFloat(x - z3.ToReal(fl) * y)))
 
 
 def num_binop(ip, op, a, b, ka, kb):
@@ -460,6 +510,10 @@ def compare(ip, op, a, b):
             return C({'Lt': a.py < b.py, 'LtE': a.py <= b.py, 'Gt': a.py > b.py, 'GtE': a.py >= b.py}[op])
         except TypeError as e:
             raise_('TypeError', str(e))
+    if (_known_number(ip, a) or _known_number(ip, b)) and \
+            all(_known_number(ip, v) or kind_of(ip, v) in ('int', 'float', 'bool') for v in (a, b)):
+        x, y = numval(ctx.to_term(a)), numval(ctx.to_term(b))
+        return _bool_val({'Lt': x < y, 'LtE': x <= y, 'Gt': x > y, 'GtE': x >= y}[op])
     ka, kb = numkind(ip, a), numkind(ip, b)
     if ka and kb:
         x, y = (int_term(ip, a), int_term(ip, b)) if (ka == 'int' and kb == 'int') else (real_term(ip, a), real_term(ip, b))
